@@ -17,12 +17,14 @@ def run(ctx):
         key_fn=key_fn,
         translators=[("gofn-math", "GoFnMathGen.v")], bridge_files=["Gen/GoFnMath_bridge.v",
                       "Properties/C15_paths.v",   # which [next] counter a path uses (Model/MapPath.v, Proofs/MapPathProofs.v)
-                      "Properties/C15_render.v"],  # what the templaters render (Model/Templater.v, Proofs/TemplaterProofs.v)
+                      "Properties/C15_render.v",  # what the templaters render (Model/Templater.v, Proofs/TemplaterProofs.v)
+                      "Properties/C15_sources.v"],  # what a file/csv source holds for any delimiter (Model/CsvSource.v); a client that
+                                                    # does not follow redirects sends the listed requests only (Model/ScenarioClient.v)
         trusted=[
             "extraction: ExtrOcamlBasic only; OCaml driver ocaml/C15/main.ml (case grammar -> model datatypes, Go fmt map printing) + ocaml/common/conv.ml",
             "correspondence harness harness/cmd/hC15 + harness/internal/a15 (real scenario http.NewProvider, Provider.Run/Acquire, "
-            "httpscenario.NewHTTPGun/Bind/Shoot, config.ParseShootName, math.GCD/GCDM, mp.NextIterator/GetMapValue; scripted httptest target)",
-            "modelled, not verified: text/template, yaml.v2 + config decoding, JSONPath, net/http; strings.TrimSpace for ASCII blanks only",
+            "the http/scenario gun decoded from a pool config's gun section through the plugin registry (registered defaults) + Bind/Shoot, config.ParseShootName, math.GCD/GCDM, mp.NextIterator/GetMapValue; scripted httptest target)",
+            "modelled, not verified: text/template, yaml.v2 + config decoding, JSONPath, net/http; strings.TrimSpace for ASCII blanks only; encoding/csv modelled for unquoted fields only",
         ],
         assumptions=["sync.Mutex critical sections of NextIterator.Next are atomic", "text/template renders a map with fmt (sorted keys)"],
     )
